@@ -1,18 +1,25 @@
 //! C14: a chunked answer carries the complete result exactly once.
 //!
 //! The REAL `InteractionModel` (device side: `Matter` transport + `Responder` + IM over a harness
-//! cluster) answers read requests issued by a raw client exchange over an in-process pipe.  The
-//! harness cluster has 16 octet-string attributes and 6 list-of-octet-string attributes whose
-//! value lengths the generator picks per read (just fit / just do not fit / lists longer than a
-//! message).  Every `ReportData` chunk is captured raw, decoded with the real TLV reader (step
-//! capped), and rendered as: total size, MoreChunks / SuppressResponse flags, well-formedness, and
-//! per attribute report its kind, attribute, encoded size, value length(s) and whether the value
-//! bytes are the configured ones.
+//! cluster) answers read requests and subscribe requests (priming report) issued by a raw client
+//! exchange over an in-process pipe.  The harness cluster lives on two endpoints (two data
+//! versions), has 16 octet-string attributes, 6 list-of-octet-string attributes and two events; the
+//! generator picks per request the value lengths (just fit / just do not fit / lists longer than a
+//! message / values longer than a message), the events in the queue (priority, id, payload
+//! length), data-version filters, event filters, the event paths (wildcard, one event, paths that
+//! do not validate) and the length of the transmit buffer (hook `im::verif_tx`).  Every
+//! `ReportData` chunk is captured raw, decoded with the real TLV reader (step capped), and
+//! rendered as: total size, MoreChunks / SuppressResponse flags, well-formedness, subscription id,
+//! and per attribute / event report its kind, id, encoded size, value length(s) and whether the
+//! value bytes are the configured ones.
 //!
-//! op:   `rd <item>…`, item = `s<attr>:<len>` | `l<attr>:<len>,<len>…` | `l<attr>:-`
-//! out:  `<status> | <chunk>;<chunk>…`, chunk = `<size>/<more><suppress><wf>/<piece>,<piece>…`
-//!       piece = `S<attr>:<enc>:<len>:<ok>` | `W<attr>:<enc>:<lens|->:<ok>` | `E<attr>:<enc>` |
-//!               `I<attr>:<enc>:<len>:<ok>` | `X<attr>:<enc>` | `?`
+//! op:   `rd|sp [b<cap>] <item>… [f<1|2><m|x>]… [q<W|1>] [z<n>] [e<c|i|d><1|2>:<len>]… [m<min>]…`
+//!       item = `s<attr>:<len>` | `l<k>:<len>,<len>…` | `l<k>:-` (endpoint 1; `S` / `L`: endpoint 2) | `u`
+//! out:  `<status> | <event queue: n,n,…|-> | <chunk>;<chunk>…`
+//!       chunk = `<size>/<more><suppress><wf>/<subscription id|->/<piece>,…|-/<event>,…|-`
+//!       piece = `S<id>:<enc>:<len>:<ok>` | `W<id>:<enc>:<lens|->:<ok>` | `E<id>:<enc>` |
+//!               `I<id>:<enc>:<len>:<ok>` | `X<id>:<enc>:<code>` | `?`
+//!       event = `D<number>:<enc>:<len>:<ok>` | `T<endpoint>:<enc>:<code>` | `?`
 #[path = "c14_e2e.rs"]
 mod e2e;
 
@@ -26,12 +33,17 @@ use crate::proto::{parse_cases, Case, Out};
 use crate::rng::Rng;
 use crate::Args;
 
-use e2e::{pattern, Runner, CLUSTER_ID, ENDPOINT, N_LIST, N_SCALAR, SIZES};
+use e2e::{ep_idx, ev_pattern, pattern, Runner, CLUSTER_ID, DATAVERS, ENDPOINT, ENDPOINT2, N_LIST, N_SCALAR, SIZES};
 use rs_matter::crypto::Crypto;
 use rs_matter::error::Error;
-use rs_matter::im::{IMStatusCode, OpCode, StatusResp};
-use rs_matter::tlv::{TLVElement, TLVTag, TLVWrite};
+use rs_matter::im::{
+    ClusterPath, DataVersionFilter, EventFilter, EventPath, EventPriority, IMStatusCode, OpCode, StatusResp,
+};
+use rs_matter::persist::{DummyKvBlobStore, SharedKvBlobStore};
+use rs_matter::tlv::{TLVElement, TLVTag, TLVWrite, ToTLV};
 use rs_matter::transport::exchange::MAX_EXCHANGE_TX_BUF_SIZE;
+use rs_matter::utils::cell::RefCell;
+use rs_matter::utils::sync::blocking::Mutex;
 
 fn noop_waker() -> Waker {
     fn clone(_: *const ()) -> RawWaker {
@@ -57,40 +69,108 @@ fn run_bounded<F: Future>(f: F, max: u64) -> Option<F::Output> {
 
 #[derive(Clone, Debug)]
 enum Item {
-    Scalar(u32, usize),
-    List(u32, Vec<usize>),
+    Scalar(u16, u32, usize),
+    List(u16, u32, Vec<usize>),
+    /// a concrete path to an attribute the cluster does not have (answered with a status)
+    Unknown,
 }
 
-fn parse_items(op: &str) -> Vec<Item> {
-    let mut v = Vec::new();
-    for w in op.split_whitespace().skip(1) {
+#[derive(Clone, Debug, Default)]
+struct Op {
+    subscribe: bool,
+    /// `sr`: subscribe (priming with empty values, not rendered), then change the marked
+    /// attributes / push the events and render the subscription report the device sends
+    report: bool,
+    /// per item: did it change after the priming (`sr` only; `n` prefix = subscribed, unchanged)
+    changed: Vec<bool>,
+    cap: Option<usize>,
+    items: Vec<Item>,
+    /// data version filter for endpoint 1 / 2: `Some(true)` = the cluster's version
+    filters: [Option<bool>; 2],
+    /// event paths: `W` wildcard, `1` event 1 of the harness cluster
+    query: Option<char>,
+    /// number of concrete event paths that do not validate
+    invalid: usize,
+    /// events pushed before the request: priority, event id, payload length
+    events: Vec<(u8, u32, usize)>,
+    mins: Vec<u64>,
+}
+
+fn parse_op(op: &str) -> Op {
+    let mut o = Op::default();
+    for (i, w) in op.split_whitespace().enumerate() {
+        if i == 0 {
+            o.subscribe = w == "sp" || w == "sr";
+            o.report = w == "sr";
+            continue;
+        }
+        let (w, changed) = match w.strip_prefix('n') {
+            Some(x) => (x, false),
+            None => (w, true),
+        };
+        if w.is_empty() {
+            continue;
+        }
         let (kind, rest) = w.split_at(1);
-        let mut it = rest.splitn(2, ':');
-        let attr: u32 = it.next().and_then(|x| x.parse().ok()).unwrap_or(0);
-        let val = it.next().unwrap_or("0");
         match kind {
-            "s" => v.push(Item::Scalar(attr % N_SCALAR, val.parse().unwrap_or(0))),
-            _ => {
-                let lens = if val == "-" { Vec::new() } else { val.split(',').filter_map(|x| x.parse().ok()).collect() };
-                v.push(Item::List(N_SCALAR + attr % N_LIST, lens))
+            "b" => o.cap = rest.parse().ok(),
+            "f" => {
+                let e = if rest.starts_with('2') { 1 } else { 0 };
+                o.filters[e] = Some(rest.ends_with('m'));
             }
+            "q" => o.query = rest.chars().next(),
+            "z" => o.invalid = rest.parse::<usize>().unwrap_or(0).min(8),
+            "m" => o.mins.push(rest.parse().unwrap_or(0)),
+            "e" => {
+                let mut it = rest.splitn(2, ':');
+                let head = it.next().unwrap_or("c1");
+                let len: usize = it.next().and_then(|x| x.parse().ok()).unwrap_or(0);
+                let prio = match head.chars().next() {
+                    Some('d') => 0,
+                    Some('i') => 1,
+                    _ => 2,
+                };
+                let evid = if head.ends_with('2') { 2 } else { 1 };
+                o.events.push((prio, evid, len));
+            }
+            "u" => {
+                o.items.push(Item::Unknown);
+                o.changed.push(changed);
+            }
+            "s" | "S" | "l" | "L" => {
+                let ep = if kind == "S" || kind == "L" { ENDPOINT2 } else { ENDPOINT };
+                let mut it = rest.splitn(2, ':');
+                let attr: u32 = it.next().and_then(|x| x.parse().ok()).unwrap_or(0);
+                let val = it.next().unwrap_or("0");
+                if kind == "s" || kind == "S" {
+                    o.items.push(Item::Scalar(ep, attr % N_SCALAR, val.parse().unwrap_or(0)));
+                } else {
+                    let lens = if val == "-" { Vec::new() } else { val.split(',').filter_map(|x| x.parse().ok()).collect() };
+                    o.items.push(Item::List(ep, N_SCALAR + attr % N_LIST, lens));
+                }
+                o.changed.push(changed);
+            }
+            _ => {}
         }
     }
-    v
+    o
 }
 
 fn configure(items: &[Item]) {
     let mut s = SIZES.lock().unwrap();
     for it in items {
         match it {
-            Item::Scalar(a, len) => s.scalars[*a as usize] = *len,
-            Item::List(a, lens) => s.lists[(*a - N_SCALAR) as usize] = lens.clone(),
+            Item::Scalar(ep, a, len) => s.scalars[ep_idx(*ep)][*a as usize] = *len,
+            Item::List(ep, a, lens) => s.lists[ep_idx(*ep)][(*a - N_SCALAR) as usize] = lens.clone(),
+            Item::Unknown => {}
         }
     }
 }
 
+type NextIdx = [[usize; N_LIST as usize]; 2];
+
 /// decode one `AttributeReportIB` (an anonymous struct) with the real TLV reader
-fn render_piece(e: &TLVElement<'_>, raw_len: usize, next_idx: &mut [usize; N_LIST as usize]) -> String {
+fn render_piece(e: &TLVElement<'_>, raw_len: usize, next_idx: &mut NextIdx) -> String {
     let mut inner = || -> Result<String, Error> {
         let s = e.structure()?;
         if let Some(data) = s.find_ctx(1).ok().filter(|e| !e.is_empty()) {
@@ -99,23 +179,28 @@ fn render_piece(e: &TLVElement<'_>, raw_len: usize, next_idx: &mut [usize; N_LIS
             let attr = path.find_ctx(4)?.u32()?;
             let ep = path.find_ctx(2)?.u16()?;
             let cl = path.find_ctx(3)?.u32()?;
-            if ep != ENDPOINT || cl != CLUSTER_ID {
+            if (ep != ENDPOINT && ep != ENDPOINT2) || cl != CLUSTER_ID {
                 return Ok("?".into());
             }
+            let e = ep_idx(ep);
+            let off = 1000 * e as u32;
+            let pid = attr + 40 * e as u32;
             let li = path.find_ctx(5).ok().filter(|e| !e.is_empty());
             let val = d.find_ctx(2)?;
             if attr < N_SCALAR {
                 let v = val.str()?;
-                let ok = v == pattern(attr, 0, v.len()).as_slice();
-                Ok(format!("S{}:{}:{}:{}", attr, raw_len, v.len(), ok as u8))
+                let ok = v == pattern(pid, 0, v.len()).as_slice();
+                Ok(format!("S{}:{}:{}:{}", off + attr, raw_len, v.len(), ok as u8))
+            } else if attr >= N_SCALAR + N_LIST {
+                Ok("?".into())
             } else if let Some(li) = li {
                 // list index null = append one element
                 if li.null().is_ok() {
                     let v = val.str()?;
-                    let slot = &mut next_idx[(attr - N_SCALAR) as usize % N_LIST as usize];
-                    let ok = v == pattern(attr, *slot, v.len()).as_slice();
+                    let slot = &mut next_idx[e][(attr - N_SCALAR) as usize];
+                    let ok = v == pattern(pid, *slot, v.len()).as_slice();
                     *slot += 1;
-                    Ok(format!("I{}:{}:{}:{}", attr - N_SCALAR, raw_len, v.len(), ok as u8))
+                    Ok(format!("I{}:{}:{}:{}", off + 100 + attr - N_SCALAR, raw_len, v.len(), ok as u8))
                 } else {
                     Ok("?".into())
                 }
@@ -130,21 +215,54 @@ fn render_piece(e: &TLVElement<'_>, raw_len: usize, next_idx: &mut [usize; N_LIS
                         return Ok("?".into());
                     }
                     let v = el?.str()?;
-                    ok &= v == pattern(attr, k, v.len()).as_slice();
+                    ok &= v == pattern(pid, k, v.len()).as_slice();
                     lens.push(v.len().to_string());
                 }
                 if lens.is_empty() {
-                    next_idx[(attr - N_SCALAR) as usize % N_LIST as usize] = 0;
-                    Ok(format!("E{}:{}", attr - N_SCALAR, raw_len))
+                    next_idx[e][(attr - N_SCALAR) as usize] = 0;
+                    Ok(format!("E{}:{}", off + 100 + attr - N_SCALAR, raw_len))
                 } else {
-                    Ok(format!("W{}:{}:{}:{}", attr - N_SCALAR, raw_len, lens.join("+"), ok as u8))
+                    Ok(format!("W{}:{}:{}:{}", off + 100 + attr - N_SCALAR, raw_len, lens.join("+"), ok as u8))
                 }
             }
         } else if let Some(st) = s.find_ctx(0).ok().filter(|e| !e.is_empty()) {
             let d = st.structure()?;
             let path = d.find_ctx(0)?.list()?;
             let attr = path.find_ctx(4)?.u32()?;
-            Ok(format!("X{}:{}", attr, raw_len))
+            let ep = path.find_ctx(2)?.u16()?;
+            let code = d.find_ctx(1)?.structure()?.find_ctx(0)?.u8()?;
+            let off = 1000 * ep_idx(ep) as u32;
+            let id = if attr >= N_SCALAR && attr < N_SCALAR + N_LIST { off + 100 + attr - N_SCALAR } else { off + attr };
+            Ok(format!("X{}:{}:{}", id, raw_len, code))
+        } else {
+            Ok("?".into())
+        }
+    };
+    inner().unwrap_or_else(|e| format!("?{:?}", e.code()))
+}
+
+/// decode one `EventReportIB`
+fn render_event(e: &TLVElement<'_>, raw_len: usize) -> String {
+    let inner = || -> Result<String, Error> {
+        let s = e.structure()?;
+        if let Some(data) = s.find_ctx(1).ok().filter(|e| !e.is_empty()) {
+            let d = data.structure()?;
+            let path = d.find_ctx(0)?.list()?;
+            let ep = path.find_ctx(1)?.u16()?;
+            let cl = path.find_ctx(2)?.u32()?;
+            if ep != ENDPOINT || cl != CLUSTER_ID {
+                return Ok("?".into());
+            }
+            let num = d.find_ctx(1)?.u64()?;
+            let v = d.find_ctx(7)?.str()?;
+            let ok = v == ev_pattern(num as usize, v.len()).as_slice();
+            Ok(format!("D{}:{}:{}:{}", num, raw_len, v.len(), ok as u8))
+        } else if let Some(st) = s.find_ctx(0).ok().filter(|e| !e.is_empty()) {
+            let d = st.structure()?;
+            let path = d.find_ctx(0)?.list()?;
+            let ep = path.find_ctx(1)?.u16()?;
+            let code = d.find_ctx(1)?.structure()?.find_ctx(0)?.u8()?;
+            Ok(format!("T{}:{}:{}", ep, raw_len, code))
         } else {
             Ok("?".into())
         }
@@ -157,11 +275,13 @@ struct ChunkInfo {
     text: String,
 }
 
-fn render_chunk(payload: &[u8], next_idx: &mut [usize; N_LIST as usize]) -> ChunkInfo {
+fn render_chunk(payload: &[u8], next_idx: &mut NextIdx) -> ChunkInfo {
     let mut more = false;
     let mut suppress = false;
     let mut wf = true;
+    let mut sub: Option<u32> = None;
     let mut pieces: Vec<String> = Vec::new();
+    let mut events: Vec<String> = Vec::new();
     let root = TLVElement::new(payload);
     let parsed = (|| -> Result<(), Error> {
         let s = root.structure()?;
@@ -176,10 +296,18 @@ fn render_chunk(payload: &[u8], next_idx: &mut [usize; N_LIST as usize]) -> Chun
         }
         // the struct must span the whole payload: after the last field only its end-of-container
         let mut seen_rev = false;
+        let mut last_tag = -1i32;
         for (i, f) in fields.iter().enumerate() {
             // what follows this field: the next field, or the closing byte of the message
             let after = fields.get(i + 1).map(|n| n.raw_data().len()).unwrap_or(1);
-            match f.ctx()? {
+            let tag = f.ctx()?;
+            // fields in tag order, none twice
+            if tag as i32 <= last_tag {
+                wf = false;
+            }
+            last_tag = tag as i32;
+            match tag {
+                0 => sub = Some(f.u32()?),
                 3 => more = f.bool()?,
                 4 => suppress = f.bool()?,
                 0xff => {
@@ -188,7 +316,7 @@ fn render_chunk(payload: &[u8], next_idx: &mut [usize; N_LIST as usize]) -> Chun
                         wf = false;
                     }
                 }
-                1 => {
+                1 | 2 => {
                     let arr = f.array()?;
                     let mut items: Vec<TLVElement<'_>> = Vec::new();
                     for (n, el) in arr.iter().enumerate() {
@@ -203,10 +331,14 @@ fn render_chunk(payload: &[u8], next_idx: &mut [usize; N_LIST as usize]) -> Chun
                         // the last report is followed by the array's end-of-container
                         let end = items.get(j + 1).map(|n| n.raw_data().len()).unwrap_or(after + 1);
                         let len = start.saturating_sub(end);
-                        pieces.push(render_piece(it, len, next_idx));
+                        if tag == 1 {
+                            pieces.push(render_piece(it, len, next_idx));
+                        } else {
+                            events.push(render_event(it, len));
+                        }
                     }
                 }
-                _ => {}
+                _ => wf = false,
             }
         }
         if !seen_rev {
@@ -217,47 +349,163 @@ fn render_chunk(payload: &[u8], next_idx: &mut [usize; N_LIST as usize]) -> Chun
     if parsed.is_err() {
         wf = false;
     }
+    let join = |v: &Vec<String>| if v.is_empty() { "-".to_string() } else { v.join(",") };
     ChunkInfo {
         more,
         text: format!(
-            "{}/{}{}{}/{}",
+            "{}/{}{}{}/{}/{}/{}",
             payload.len(),
             more as u8,
             suppress as u8,
             wf as u8,
-            if pieces.is_empty() { "-".to_string() } else { pieces.join(",") }
+            sub.map(|s| s.to_string()).unwrap_or_else(|| "-".into()),
+            join(&pieces),
+            join(&events)
         ),
     }
 }
 
-/// one read interaction against the real IM; returns the rendered output
-async fn read_once<C: Crypto>(runner: &Runner<C>, items: &[Item]) -> String {
-    let mut chunks: Vec<String> = Vec::new();
-    let mut next_idx = [0usize; N_LIST as usize];
+/// more chunks than any request of the generator can need: the interaction does not end
+const MAX_CHUNKS: usize = 1500;
+
+/// what the client has seen of an interaction (kept outside the future: a hang drops the future)
+#[derive(Default)]
+struct Seen {
+    queue: String,
+    chunks: Vec<String>,
+}
+
+/// value sizes of the op (or empty values), transmit buffer length, an empty event queue
+fn prepare<C: Crypto>(runner: &Runner<C>, op: &Op, empty_values: bool) {
+    if empty_values {
+        let zero: Vec<Item> = op
+            .items
+            .iter()
+            .map(|it| match it {
+                Item::Scalar(ep, a, _) => Item::Scalar(*ep, *a, 0),
+                Item::List(ep, a, _) => Item::List(*ep, *a, Vec::new()),
+                Item::Unknown => Item::Unknown,
+            })
+            .collect();
+        configure(&zero);
+    } else {
+        configure(&op.items);
+    }
+    rs_matter::im::verif_tx::set_tx_buf_size(op.cap.unwrap_or(usize::MAX));
+    runner.state.events().verif_reset();
+}
+
+/// push the events of the op; returns the event numbers in the queue in iteration order
+fn push_events<C: Crypto>(runner: &Runner<C>, op: &Op) -> String {
+    let events = runner.state.events();
+    let kv_buf = Mutex::new(RefCell::new([0u8; 0]));
+    let kv = SharedKvBlobStore::new(DummyKvBlobStore, &kv_buf);
+    for (n, (prio, evid, len)) in op.events.iter().enumerate() {
+        let prio = match prio {
+            0 => EventPriority::Debug,
+            1 => EventPriority::Info,
+            _ => EventPriority::Critical,
+        };
+        // the n-th pushed event gets number n + 1 whether or not it fits the queue
+        let _ = events.push(ENDPOINT, CLUSTER_ID, *evid, prio, &kv, |mut tw| tw.str(&TLVTag::Context(7), &ev_pattern(n + 1, *len)));
+    }
+    let mut q: Vec<String> = Vec::new();
+    events.verif_visit(|n, _| q.push(n.to_string()));
+    if q.is_empty() {
+        "-".into()
+    } else {
+        // the events carry the time of the push (a varying-width field of their reports)
+        format!("{}@{}", q.join(","), embassy_time::Instant::now().as_millis())
+    }
+}
+
+fn write_request(op: &Op, wb: &mut rs_matter::utils::storage::WriteBuf<'_>) -> Result<(), Error> {
+    let sub = op.subscribe;
+    wb.start_struct(&TLVTag::Anonymous)?;
+    if sub {
+        wb.bool(&TLVTag::Context(0), false)?;
+        wb.u16(&TLVTag::Context(1), 0)?;
+        wb.u16(&TLVTag::Context(2), 100)?;
+    }
+    if !op.items.is_empty() {
+        wb.start_array(&TLVTag::Context(if sub { 3 } else { 0 }))?;
+        for it in &op.items {
+            let (ep, attr) = match it {
+                Item::Scalar(ep, a, _) => (*ep, *a),
+                Item::List(ep, a, _) => (*ep, *a),
+                Item::Unknown => (ENDPOINT, 0x63),
+            };
+            wb.start_list(&TLVTag::Anonymous)?;
+            wb.u16(&TLVTag::Context(2), ep)?;
+            wb.u32(&TLVTag::Context(3), CLUSTER_ID)?;
+            wb.u32(&TLVTag::Context(4), attr)?;
+            wb.end_container()?;
+        }
+        wb.end_container()?;
+    }
+    if op.query.is_some() || op.invalid > 0 {
+        wb.start_array(&TLVTag::Context(if sub { 4 } else { 1 }))?;
+        for i in 0..op.invalid {
+            EventPath { endpoint: Some(9 + i as u16), cluster: Some(CLUSTER_ID), event: Some(1), ..Default::default() }
+                .to_tlv(&TLVTag::Anonymous, &mut *wb)?;
+        }
+        match op.query {
+            Some('1') => EventPath { endpoint: Some(ENDPOINT), cluster: Some(CLUSTER_ID), event: Some(1), ..Default::default() }
+                .to_tlv(&TLVTag::Anonymous, &mut *wb)?,
+            Some(_) => EventPath::default().to_tlv(&TLVTag::Anonymous, &mut *wb)?,
+            None => {}
+        }
+        wb.end_container()?;
+    }
+    if !op.mins.is_empty() {
+        wb.start_array(&TLVTag::Context(if sub { 5 } else { 2 }))?;
+        for m in &op.mins {
+            EventFilter { node: None, event_min: Some(*m) }.to_tlv(&TLVTag::Anonymous, &mut *wb)?;
+        }
+        wb.end_container()?;
+    }
+    wb.bool(&TLVTag::Context(if sub { 7 } else { 3 }), false)?;
+    if op.filters.iter().any(|f| f.is_some()) {
+        wb.start_array(&TLVTag::Context(if sub { 8 } else { 4 }))?;
+        for (e, f) in op.filters.iter().enumerate() {
+            if let Some(matching) = f {
+                let ver = if *matching { DATAVERS[e] } else { DATAVERS[e] + 1 };
+                DataVersionFilter {
+                    path: ClusterPath { node: None, endpoint: if e == 0 { ENDPOINT } else { ENDPOINT2 }, cluster: CLUSTER_ID },
+                    data_ver: ver,
+                }
+                .to_tlv(&TLVTag::Anonymous, &mut *wb)?;
+            }
+        }
+        wb.end_container()?;
+    }
+    wb.u8(&TLVTag::Context(0xff), 13)?;
+    wb.end_container()
+}
+
+/// let the device side run for a while
+async fn yield_for(n: usize) {
+    for _ in 0..n {
+        embassy_futures::yield_now().await;
+    }
+}
+
+/// one read / subscribe (/ report) interaction against the real IM; returns the status
+async fn interact<C: Crypto>(runner: &Runner<C>, op: &Op, seen: &core::cell::RefCell<Seen>) -> String {
+    let mut next_idx: NextIdx = [[0usize; N_LIST as usize]; 2];
+    prepare(runner, op, op.report);
+    if !op.report {
+        seen.borrow_mut().queue = push_events(runner, op);
+    }
     let status = async {
         let mut ex = runner.initiate_exchange().await?;
         ex.send_with(|_, wb| {
-            wb.start_struct(&TLVTag::Anonymous)?;
-            wb.start_array(&TLVTag::Context(0))?;
-            for it in items {
-                let attr = match it {
-                    Item::Scalar(a, _) => *a,
-                    Item::List(a, _) => *a,
-                };
-                wb.start_list(&TLVTag::Anonymous)?;
-                wb.u16(&TLVTag::Context(2), ENDPOINT)?;
-                wb.u32(&TLVTag::Context(3), CLUSTER_ID)?;
-                wb.u32(&TLVTag::Context(4), attr)?;
-                wb.end_container()?;
-            }
-            wb.end_container()?;
-            wb.bool(&TLVTag::Context(3), false)?;
-            wb.u8(&TLVTag::Context(0xff), 13)?;
-            wb.end_container()?;
-            Ok(Some(OpCode::ReadRequest.into()))
+            write_request(op, wb)?;
+            Ok(Some(if op.subscribe { OpCode::SubscribeRequest.into() } else { OpCode::ReadRequest.into() }))
         })
         .await?;
-        loop {
+        let mut n = 0usize;
+        let sub_id = loop {
             ex.recv_fetch().await?;
             let (opcode, info) = {
                 let rx = ex.rx()?;
@@ -265,27 +513,99 @@ async fn read_once<C: Crypto>(runner: &Runner<C>, items: &[Item]) -> String {
             };
             if opcode != OpCode::ReportData as u8 {
                 let rx = ex.rx()?;
-                let st = StatusResp::from_tlv_payload(rx.payload());
+                let st = status_of(rx.payload());
                 ex.rx_done()?;
                 let _ = ex.acknowledge().await;
                 return Ok::<String, Error>(format!("status:{}", st));
             }
             ex.rx_done()?;
             let more = info.more;
-            chunks.push(info.text);
-            if chunks.len() > 200 {
+            if !op.report {
+                seen.borrow_mut().chunks.push(info.text);
+            }
+            n += 1;
+            if n > MAX_CHUNKS {
                 return Ok("toomany".into());
             }
-            if more {
+            if more || op.subscribe {
                 ex.send_with(|_, wb| {
                     StatusResp::write(wb, IMStatusCode::Success)?;
                     Ok(Some(OpCode::StatusResponse.into()))
                 })
                 .await?;
-            } else {
+            }
+            if !more {
+                if op.subscribe {
+                    // the priming report is followed by the SubscribeResponse
+                    ex.recv_fetch().await?;
+                    let (opcode, id) = {
+                        let rx = ex.rx()?;
+                        let e = TLVElement::new(rx.payload());
+                        (rx.meta().proto_opcode, e.structure().and_then(|s| s.find_ctx(0)).and_then(|c| c.u32()))
+                    };
+                    ex.rx_done()?;
+                    let _ = ex.acknowledge().await;
+                    if opcode != OpCode::SubscribeResponse as u8 {
+                        return Ok(format!("noresp:{}", opcode));
+                    }
+                    break id.ok();
+                }
                 // reads are sent with SuppressResponse; acknowledge and finish
                 let _ = ex.acknowledge().await;
                 return Ok("ok".into());
+            }
+        };
+        let id = sub_id.map(|i| i.to_string()).unwrap_or_else(|| "?".into());
+        if !op.report {
+            return Ok(format!("ok:{}", id));
+        }
+        drop(ex);
+        // let the device commit the subscription, then change the data and wake the reporter
+        yield_for(200).await;
+        configure(&op.items);
+        seen.borrow_mut().queue = push_events(runner, op);
+        let subs = runner.state.subscriptions();
+        for (it, changed) in op.items.iter().zip(op.changed.iter()) {
+            if *changed {
+                match it {
+                    Item::Scalar(ep, a, _) | Item::List(ep, a, _) => subs.verif_notify_attr_changed(*ep, CLUSTER_ID, *a),
+                    Item::Unknown => {}
+                }
+            }
+        }
+        for (_, evid, _) in &op.events {
+            subs.notify_event_emitted(ENDPOINT, CLUSTER_ID, *evid);
+        }
+        let mut next_idx: NextIdx = [[0usize; N_LIST as usize]; 2];
+        // the device reports on an exchange of its own; nothing to report = no exchange
+        let Some(rep) = (Budget { f: Box::pin(rs_matter::transport::exchange::Exchange::accept(&runner.matter_client)), left: 8_000 }).await else {
+            return Ok(format!("none:{}", id));
+        };
+        let mut rep = rep?;
+        let mut n = 0usize;
+        loop {
+            rep.recv_fetch().await?;
+            let (opcode, info) = {
+                let rx = rep.rx()?;
+                (rx.meta().proto_opcode, render_chunk(rx.payload(), &mut next_idx))
+            };
+            rep.rx_done()?;
+            if opcode != OpCode::ReportData as u8 {
+                return Ok(format!("noreport:{}", opcode));
+            }
+            let more = info.more;
+            seen.borrow_mut().chunks.push(info.text);
+            n += 1;
+            if n > MAX_CHUNKS {
+                return Ok("toomany".into());
+            }
+            rep.send_with(|_, wb| {
+                StatusResp::write(wb, IMStatusCode::Success)?;
+                Ok(Some(OpCode::StatusResponse.into()))
+            })
+            .await?;
+            if !more {
+                return Ok(format!("ok:{}", id));
             }
         }
     }
@@ -294,19 +614,19 @@ async fn read_once<C: Crypto>(runner: &Runner<C>, items: &[Item]) -> String {
         Ok(s) => s,
         Err(e) => format!("err:{:?}", e.code()),
     };
-    format!("{} | {}", st, if chunks.is_empty() { "-".to_string() } else { chunks.join(";") })
+    if op.subscribe {
+        // a subscription must not outlive its op: let it expire and the reporter drop it
+        embassy_time::MockDriver::get().advance(embassy_time::Duration::from_secs(1_000));
+        yield_for(300).await;
+    }
+    st
 }
 
-trait StatusPayload {
-    fn from_tlv_payload(p: &[u8]) -> String;
-}
-impl StatusPayload for StatusResp {
-    fn from_tlv_payload(p: &[u8]) -> String {
-        let e = TLVElement::new(p);
-        match e.structure().and_then(|s| s.find_ctx(0)).and_then(|c| c.u8()) {
-            Ok(v) => v.to_string(),
-            Err(_) => "?".into(),
-        }
+fn status_of(p: &[u8]) -> String {
+    let e = TLVElement::new(p);
+    match e.structure().and_then(|s| s.find_ctx(0)).and_then(|c| c.u8()) {
+        Ok(v) => v.to_string(),
+        Err(_) => "?".into(),
     }
 }
 
@@ -315,6 +635,8 @@ struct Budget<F> {
     f: core::pin::Pin<Box<F>>,
     left: u64,
 }
+
+impl<F> Unpin for Budget<F> {}
 
 impl<F: Future> Future for Budget<F> {
     type Output = Option<F::Output>;
@@ -330,10 +652,10 @@ impl<F: Future> Future for Budget<F> {
     }
 }
 
-const OP_POLLS: u64 = 300_000;
+const OP_POLLS: u64 = 60_000;
 
-/// run the ops of all cases against the real device; a read that gets no answer within the poll
-/// budget is reported as `hang` and the remaining ops continue on a fresh device
+/// run the ops of all cases against the real device; a request that gets no (complete) answer
+/// within the poll budget is reported as `hang` and the remaining ops continue on a fresh device
 fn drive(cases: &[Case], out: &mut Out) {
     let flat: Vec<(usize, usize)> = cases.iter().enumerate().flat_map(|(ci, c)| (0..c.ops.len()).map(move |oi| (ci, oi))).collect();
     let mut pos = 0usize;
@@ -360,23 +682,37 @@ fn drive(cases: &[Case], out: &mut Out) {
                             started[ci] = true;
                             out.case(c.id, &format!("rd {} {}", MAX_EXCHANGE_TX_BUF_SIZE, k));
                         }
-                        let op = &c.ops[oi];
-                        let items = parse_items(op);
-                        configure(&items);
-                        let o = Budget { f: Box::pin(read_once(&runner, &items)), left: OP_POLLS }.await;
+                        let optext = &c.ops[oi];
+                        let op = parse_op(optext);
+                        let seen = core::cell::RefCell::new(Seen::default());
+                        let mut budget = Budget { f: Box::pin(interact(&runner, &op, &seen)), left: OP_POLLS };
+                        let o = (&mut budget).await;
                         pos += 1;
+                        if o.is_some() {
+                            // how much of the poll budget answered requests need (power-of-two buckets)
+                            let used = OP_POLLS - budget.left;
+                            out.stat(&format!("polls_below_2^{}", 64 - used.leading_zeros()), 1);
+                        }
+                        let got = seen.borrow();
+                        let queue = if got.queue.is_empty() { "-".to_string() } else { got.queue.clone() };
+                        let ch = if got.chunks.is_empty() { "-".to_string() } else { got.chunks.join(";") };
                         match o {
-                            Some(o) => {
-                                tally(&o, out);
-                                out.op(op, &o);
-                                if o.split(" | ").nth(1).map(|c| c.contains(';')).unwrap_or(false) && !multi[ci] {
+                            Some(st) => {
+                                tally(&op, &st, &ch, out);
+                                out.op(optext, &format!("{} | {} | {}", st, queue, ch));
+                                if ch.contains(';') && !multi[ci] {
                                     multi[ci] = true;
                                     out.buf.push_str("#nt\n");
                                 }
+                                if st.starts_with("none") {
+                                    // no report: nothing to report, or the report failed on the device
+                                    // (which then drops the session): go on with a fresh device
+                                    return;
+                                }
                             }
                             None => {
-                                out.stat("reads_without_answer", 1);
-                                out.op(op, "hang | -");
+                                out.stat("requests_without_answer", 1);
+                                out.op(optext, &format!("hang | {} | {}", queue, ch));
                                 return;
                             }
                         }
@@ -393,7 +729,7 @@ fn drive(cases: &[Case], out: &mut Out) {
             out.buf.push_str(&format!("# {}\n", why));
             if pos < flat.len() {
                 let (ci, oi) = flat[pos];
-                out.op(&cases[ci].ops[oi], &format!("devend | -"));
+                out.op(&cases[ci].ops[oi], "devend | - | -");
                 pos += 1;
             }
         }
@@ -401,24 +737,48 @@ fn drive(cases: &[Case], out: &mut Out) {
             break;
         }
     }
+    rs_matter::im::verif_tx::set_tx_buf_size(usize::MAX);
     out.stat("devices", devices);
 }
 
-fn tally(o: &str, out: &mut Out) {
-    let n = o.split(" | ").nth(1).map(|c| if c == "-" { 0 } else { c.split(';').count() }).unwrap_or(0);
+fn tally(op: &Op, o: &str, ch: &str, out: &mut Out) {
+    let n = if ch == "-" { 0 } else { ch.split(';').count() };
     out.stat(&format!("chunks_{}", if n >= 6 { "6plus".to_string() } else { n.to_string() }), 1);
-    if o.contains("/E") || o.contains(",E") {
-        out.stat("reads_with_split_list", 1);
+    if ch.contains("/E") || ch.contains(",E") {
+        out.stat("answers_with_split_list", 1);
+    }
+    if ch.contains("/D") || ch.contains(",D") {
+        out.stat("answers_with_events", 1);
+    }
+    if ch.split(';').filter(|c| c.contains("/D") || c.contains(",D")).count() > 1 {
+        out.stat("answers_with_events_in_several_chunks", 1);
+    }
+    if ch.contains("/X") || ch.contains(",X") {
+        out.stat("answers_with_error_status", 1);
+    }
+    if op.report {
+        out.stat("subscription_reports", 1);
+    } else if op.subscribe {
+        out.stat("subscribe_primings", 1);
+    }
+    if op.cap.is_some() {
+        out.stat("requests_with_cut_tx_buffer", 1);
+    }
+    if op.filters.iter().any(|f| *f == Some(true)) {
+        out.stat("requests_with_matching_dataver_filter", 1);
+    }
+    if !op.mins.is_empty() {
+        out.stat("requests_with_event_filter", 1);
     }
     if !o.starts_with("ok") {
-        out.stat("reads_not_ok", 1);
+        out.stat("requests_not_ok", 1);
     }
 }
 
-/// measure the constant parts of the encodings: `KS KW KE KI`
+/// measure the constant parts of the encodings: `KS KW KE KI KX KV KT`
 async fn calibrate<C: Crypto>(runner: &Runner<C>) -> String {
-    let enc_of = |o: &str, kind: char| -> Option<usize> {
-        o.split(" | ").nth(1)?.split(';').flat_map(|c| c.splitn(3, '/').nth(2).unwrap_or("").split(',')).find_map(|p| {
+    let enc_of = |o: &str, field: usize, kind: char| -> Option<usize> {
+        o.split(';').flat_map(|c| c.split('/').nth(field).unwrap_or("").split(',').collect::<Vec<_>>()).find_map(|p| {
             if p.starts_with(kind) {
                 p.split(':').nth(1)?.parse().ok()
             } else {
@@ -426,107 +786,260 @@ async fn calibrate<C: Crypto>(runner: &Runner<C>) -> String {
             }
         })
     };
-    let i1 = vec![Item::Scalar(0, 0)];
-    configure(&i1);
-    let o1 = read_once(runner, &i1).await;
-    let ks = enc_of(&o1, 'S').map(|e| e as i64 - 1).unwrap_or(-1);
-    let i2 = vec![Item::List(N_SCALAR, vec![3, 3])];
-    configure(&i2);
-    let o2 = read_once(runner, &i2).await;
-    let kw = enc_of(&o2, 'W').map(|e| e as i64 - 2 * (1 + 1 + 3)).unwrap_or(-1);
-    let i3 = vec![Item::List(N_SCALAR, vec![100; 40])];
-    configure(&i3);
-    let o3 = read_once(runner, &i3).await;
-    let ke = enc_of(&o3, 'E').map(|e| e as i64).unwrap_or(-1);
-    let ki = enc_of(&o3, 'I').map(|e| e as i64 - 1 - 100).unwrap_or(-1);
-    format!("{} {} {} {}", ks, kw, ke, ki)
+    let run = |text: &str| {
+        let op = parse_op(text);
+        async move {
+            let seen = core::cell::RefCell::new(Seen::default());
+            interact(runner, &op, &seen).await;
+            let got = seen.borrow();
+            got.chunks.join(";")
+        }
+    };
+    let o1 = run("rd s0:0").await;
+    let ks = enc_of(&o1, 3, 'S').map(|e| e as i64 - 1).unwrap_or(-1);
+    let o2 = run("rd l0:3,3").await;
+    let kw = enc_of(&o2, 3, 'W').map(|e| e as i64 - 2 * (1 + 1 + 3)).unwrap_or(-1);
+    let o3 = run(&format!("rd l0:{}", vec!["100"; 40].join(","))).await;
+    let ke = enc_of(&o3, 3, 'E').map(|e| e as i64).unwrap_or(-1);
+    let ki = enc_of(&o3, 3, 'I').map(|e| e as i64 - 1 - 100).unwrap_or(-1);
+    let o4 = run("rd u").await;
+    let kx = enc_of(&o4, 3, 'X').map(|e| e as i64).unwrap_or(-1);
+    let o5 = run("rd qW z1 ec1:10").await;
+    let kv = enc_of(&o5, 4, 'D').map(|e| e as i64 - 1 - 10).unwrap_or(-1);
+    let kt = enc_of(&o5, 4, 'T').map(|e| e as i64).unwrap_or(-1);
+    format!("{} {} {} {} {} {} {}", ks, kw, ke, ki, kx, kv, kt)
 }
 
 // ---------------------------------------------------------------- generator
 
-fn gen_read(r: &mut Rng, k: (usize, usize, usize, usize), force_multi: bool, out: &mut Out) -> String {
-    let (ks, _kw, ke, ki) = k;
-    let limit = MAX_EXCHANGE_TX_BUF_SIZE - 24;
-    let mut items: Vec<String> = Vec::new();
-    let mut used = 3usize; // struct start + attribute array start
-    let mut scalars: Vec<u32> = (0..N_SCALAR).collect();
-    let mut lists: Vec<u32> = (0..N_LIST).collect();
-    let n = r.range(1, 14) as usize;
-    let enc = |k0: usize, len: usize| k0 + if len < 256 { 1 } else { 2 } + len;
-    if force_multi {
-        // two values that cannot share a message: the answer has at least two chunks
-        for _ in 0..2 {
-            let a = scalars.remove(r.below(scalars.len() as u64) as usize);
-            let len = r.range(600, 900) as usize;
-            let e = enc(ks, len);
-            used = if used + e > limit { 3 + e } else { used + e };
-            items.push(format!("s{}:{}", a, len));
-        }
+#[derive(Clone, Copy)]
+struct K {
+    ks: usize,
+    ki: usize,
+    kv: usize,
+}
+
+fn enc(k0: usize, len: usize) -> usize {
+    k0 + if len < 256 { 1 } else { 2 } + len
+}
+
+/// a value length whose report of constant part `k0` ends `delta` bytes past the space left
+fn aim(room: usize, k0: usize, delta: i64, max: usize) -> usize {
+    let target = room as i64 + delta;
+    let lb = if target - k0 as i64 - 1 < 256 { 1 } else { 2 };
+    (target - k0 as i64 - lb).clamp(0, max as i64) as usize
+}
+
+/// `r.range` that tolerates an empty interval
+fn rg(r: &mut Rng, lo: u64, hi: u64) -> u64 {
+    if hi <= lo {
+        lo
+    } else {
+        r.range(lo, hi)
     }
-    for _ in 0..n {
-        let want_list = r.chance(1, 4) && !lists.is_empty();
-        if !want_list && scalars.is_empty() {
-            break;
+}
+
+fn gen_op(r: &mut Rng, k: K, force_multi: bool, thorough: bool, out: &mut Out) -> String {
+    let mut toks: Vec<String> = Vec::new();
+    let kind = match r.below(14) {
+        0 | 1 => "sp",
+        2 | 3 => "sr",
+        _ => "rd",
+    };
+    let subscribe = kind != "rd";
+    let report = kind == "sr";
+    toks.push(kind.into());
+    // transmit buffer
+    let cap = match r.below(20) {
+        0..=12 => MAX_EXCHANGE_TX_BUF_SIZE,
+        13..=16 => rg(r, 150, MAX_EXCHANGE_TX_BUF_SIZE as u64) as usize,
+        17 | 18 => rg(r, 100, 150) as usize,
+        _ => {
+            if thorough {
+                rg(r, 48, 100) as usize
+            } else {
+                rg(r, 90, 120) as usize
+            }
         }
-        if want_list {
-            let a = lists.remove(r.below(lists.len() as u64) as usize);
-            let cnt = match r.below(6) {
-                0 => 0,
-                1 => r.range(1, 3),
-                2 | 3 => r.range(3, 12),
-                _ => r.range(10, 60),
-            } as usize;
-            let mut lens = Vec::new();
-            for _ in 0..cnt {
-                let len = match r.below(8) {
+    };
+    if cap != MAX_EXCHANGE_TX_BUF_SIZE {
+        toks.push(format!("b{}", cap));
+    }
+    let hdr = if subscribe { 4 } else { 1 };
+    let limit = cap - 28;
+    let small = cap < 400;
+    let mut used = hdr + 2; // struct start (+ subscription id) + attribute array start
+    let place = |used: &mut usize, e: usize| *used = if *used + e > limit { hdr + 2 + e } else { *used + e };
+    // attribute paths
+    let events_only = r.chance(1, 8) && !force_multi;
+    let mut slots: Vec<(char, u32)> = Vec::new();
+    for a in 0..N_SCALAR {
+        slots.push(('s', a));
+        slots.push(('S', a));
+    }
+    let mut lslots: Vec<(char, u32)> = Vec::new();
+    for a in 0..N_LIST {
+        lslots.push(('l', a));
+        lslots.push(('L', a));
+    }
+    let maxv = limit.saturating_sub(40).max(8);
+    if !events_only {
+        let n = if small { rg(r, 1, 6) } else { rg(r, 1, 14) } as usize;
+        if force_multi {
+            // two values that cannot share a message: the answer has at least two chunks
+            for _ in 0..2 {
+                let (c, a) = slots.remove(r.below(slots.len() as u64) as usize);
+                let len = rg(r, (maxv as u64 * 6 / 10).max(1), (maxv as u64 * 8 / 10).max(2)) as usize;
+                place(&mut used, enc(k.ks, len));
+                toks.push(format!("{}{}:{}", c, a, len));
+            }
+        }
+        for _ in 0..n {
+            // in a subscription report: subscribed but not changed
+            let unchanged = report && r.chance(1, 4);
+            let pfx = if unchanged { "n" } else { "" };
+            let want_list = r.chance(1, 4) && !lslots.is_empty();
+            if want_list {
+                let (c, a) = lslots.remove(r.below(lslots.len() as u64) as usize);
+                let cnt = match r.below(6) {
                     0 => 0,
-                    1..=4 => r.range(1, 40),
-                    5 | 6 => r.range(40, 300),
+                    1 => rg(r, 1, 3),
+                    2 | 3 => rg(r, 3, 12),
                     _ => {
-                        // element that exactly fills what is left of the current chunk
-                        let room = limit.saturating_sub(used);
-                        out.stat("gen_elem_boundary", 1);
-                        let target = room as i64 + [-2i64, -1, 0, 1, 2][r.below(5) as usize];
-                        (target - ki as i64 - 2).clamp(0, 900) as u64
+                        if small {
+                            rg(r, 5, 20)
+                        } else {
+                            rg(r, 10, 60)
+                        }
                     }
                 } as usize;
-                lens.push(len);
-            }
-            // generator's rough idea of the fill level (exact boundaries are the model's business)
-            for l in &lens {
-                let e = enc(ki, *l);
-                used = if used + e > limit { 3 + e } else { used + e };
-            }
-            let _ = ke;
-            items.push(format!("l{}:{}", a, if lens.is_empty() { "-".to_string() } else { lens.iter().map(|x| x.to_string()).collect::<Vec<_>>().join(",") }));
-        } else {
-            let a = scalars.remove(r.below(scalars.len() as u64) as usize);
-            let len = match r.below(10) {
-                0 => 0,
-                1..=3 => r.range(1, 60),
-                4 | 5 => r.range(60, 500),
-                6 => r.range(500, limit as u64 - 60),
-                _ => {
-                    // a value that just fits / exactly fills / just does not fit the current chunk
-                    let room = limit.saturating_sub(used);
-                    out.stat("gen_scalar_boundary", 1);
-                    let target = room as i64 + [-3i64, -2, -1, 0, 0, 1, 2][r.below(7) as usize];
-                    let lb = if target - ks as i64 - 1 < 256 { 1 } else { 2 };
-                    (target - ks as i64 - lb).clamp(0, (limit - 60) as i64) as u64
+                let mut lens = Vec::new();
+                for _ in 0..cnt {
+                    let len = match r.below(40) {
+                        0..=4 => 0,
+                        5..=24 => rg(r, 1, 40.min(maxv as u64)) as usize,
+                        25..=34 => rg(r, 40.min(maxv as u64), 300.min(maxv as u64).max(41)) as usize,
+                        35..=38 => {
+                            // element that exactly fills what is left of the current chunk
+                            out.stat("gen_elem_boundary", 1);
+                            aim(limit.saturating_sub(used), k.ki, [-2i64, -1, 0, 1, 2][r.below(5) as usize], 900.min(maxv))
+                        }
+                        _ => {
+                            if r.chance(1, 6) {
+                                // an element that fits no message
+                                out.stat("gen_oversize_elem", 1);
+                                (limit + r.below(4) as usize).saturating_sub(hdr + 2 + k.ki)
+                            } else {
+                                rg(r, 1, 40.min(maxv as u64)) as usize
+                            }
+                        }
+                    };
+                    lens.push(len);
                 }
-            } as usize;
-            let e = enc(ks, len);
-            used = if used + e > limit { 3 + e } else { used + e };
-            items.push(format!("s{}:{}", a, len));
+                // generator's rough idea of the fill level (exact boundaries are the model's business)
+                if !unchanged {
+                    for l in &lens {
+                        place(&mut used, enc(k.ki, *l));
+                    }
+                }
+                toks.push(format!("{}{}{}:{}", pfx, c, a, if lens.is_empty() { "-".to_string() } else { lens.iter().map(|x| x.to_string()).collect::<Vec<_>>().join(",") }));
+            } else {
+                if slots.is_empty() {
+                    break;
+                }
+                let (c, a) = slots.remove(r.below(slots.len() as u64) as usize);
+                let len = match r.below(40) {
+                    0..=3 => 0,
+                    4..=15 => rg(r, 1, 60.min(maxv as u64)) as usize,
+                    16..=23 => rg(r, 60.min(maxv as u64), 500.min(maxv as u64).max(61)) as usize,
+                    24..=27 => rg(r, 1, maxv as u64) as usize,
+                    28..=38 => {
+                        // a value that just fits / exactly fills / just does not fit the current chunk
+                        out.stat("gen_scalar_boundary", 1);
+                        aim(limit.saturating_sub(used), k.ks, [-3i64, -2, -1, 0, 0, 1, 2][r.below(7) as usize], maxv)
+                    }
+                    _ => {
+                        // around the largest value that fits an empty message (just fits / fits no message)
+                        out.stat("gen_scalar_oversize_boundary", 1);
+                        aim(limit.saturating_sub(hdr + 2), k.ks, [-1i64, 0, 1, 2, 30][r.below(5) as usize], usize::MAX / 4)
+                    }
+                };
+                if !unchanged {
+                    place(&mut used, enc(k.ks, len));
+                }
+                toks.push(format!("{}{}{}:{}", pfx, c, a, len));
+            }
+        }
+        // data version filters
+        if r.chance(1, 4) {
+            for e in 1..=2 {
+                if r.chance(1, 2) {
+                    toks.push(format!("f{}{}", e, if r.chance(2, 3) { 'm' } else { 'x' }));
+                }
+            }
         }
     }
-    format!("rd {}", items.join(" "))
+    // events
+    if events_only || r.chance(1, 3) {
+        toks.push(if r.chance(2, 3) { "qW".into() } else { "q1".into() });
+        if !subscribe && r.chance(1, 6) {
+            toks.push(format!("z{}", rg(r, 1, 3)));
+        }
+        // what precedes the events in the message that closes the attribute array
+        let mut eused = if events_only { hdr + 2 } else { used + 1 + 2 };
+        let elimit = |first: bool| if first { limit + 3 - if events_only { 1 } else { 0 } } else { limit };
+        let mut first = true;
+        let cnt = match r.below(8) {
+            0 => 0,
+            1 | 2 => rg(r, 1, 3),
+            3..=5 => rg(r, 2, 8),
+            _ => rg(r, 6, 16),
+        } as usize;
+        for _ in 0..cnt {
+            let prio = ['c', 'c', 'c', 'i', 'i', 'd'][r.below(6) as usize];
+            let evid = if r.chance(3, 4) { 1 } else { 2 };
+            let len = match r.below(20) {
+                0 | 1 => 0,
+                2..=8 => rg(r, 1, 60.min(maxv as u64)) as usize,
+                9..=12 => rg(r, 60.min(maxv as u64), 400.min(maxv as u64)) as usize,
+                13 | 14 => rg(r, 1, maxv as u64) as usize,
+                15..=18 => {
+                    out.stat("gen_event_boundary", 1);
+                    aim(elimit(first).saturating_sub(eused), k.kv, [-2i64, -1, 0, 0, 1, 2][r.below(6) as usize], maxv)
+                }
+                _ => {
+                    if r.chance(1, 5) {
+                        // around the largest event that fits an empty message
+                        out.stat("gen_event_oversize_boundary", 1);
+                        aim(limit.saturating_sub(hdr + 2), k.kv, [-1i64, 0, 1, 3][r.below(4) as usize], 2000)
+                    } else {
+                        rg(r, 1, 60.min(maxv as u64)) as usize
+                    }
+                }
+            };
+            let e = enc(k.kv, len);
+            if eused + e > elimit(first) {
+                first = false;
+                eused = hdr + 2 + e;
+            } else {
+                eused += e;
+            }
+            toks.push(format!("e{}{}:{}", prio, evid, len));
+        }
+        if r.chance(1, 3) {
+            toks.push(format!("m{}", rg(r, 0, cnt as u64 + 2)));
+            if r.chance(1, 5) {
+                toks.push(format!("m{}", rg(r, 0, cnt as u64 + 2)));
+            }
+        }
+    }
+    toks.join(" ")
 }
 
 pub fn gen(a: &Args) -> String {
     let mut r = Rng::new(a.seed);
     let mut out = Out::default();
-    out.buf.push_str("#rule a case is a sequence of read requests against the real InteractionModel over a harness cluster (16 octet-string attributes, 6 list attributes) with generator-chosen value lengths: empty, small, hundreds of bytes, nearly a whole message, and lengths computed to end 3..0 bytes before / exactly at / 1..2 bytes past the space left in the current chunk, lists from empty to 60 elements; non-trivial = at least one read of the case was answered in more than one chunk (the first read of every generated case is built that way); distinct = by operation list\n");
+    out.buf.push_str("#rule a case is a sequence of read requests and subscribe requests (priming report) against the real InteractionModel over a harness cluster on two endpoints (16 octet-string attributes, 6 list attributes, 2 events) with generator-chosen value lengths (empty, small, hundreds of bytes, nearly a whole message, computed to end 3..0 bytes before / exactly at / 1..2 bytes past the space left in the current chunk, around the largest value that fits an empty message, values and list elements that fit no message), lists from empty to 60 elements, 0..16 queued events of three priorities and two ids with payloads chosen the same way, wildcard / single-event / invalid event paths, event filters, data-version filters that match or do not match, and a transmit buffer cut to 48..1178 bytes in a third of the requests; non-trivial = at least one request of the case was answered in more than one chunk (the first request of every generated case is built that way); distinct = by operation list\n");
     // constants first (one throw-away device), so that the generator can aim at the boundaries
     let k = {
         let runner = e2e::new_runner();
@@ -534,29 +1047,45 @@ pub fn gen(a: &Args) -> String {
         run_bounded(
             async {
                 match select(runner.run(), calibrate(&runner)).await {
-                    Either::First(_) => "0 0 0 0".to_string(),
+                    Either::First(_) => "0 0 0 0 0 0 0".to_string(),
                     Either::Second(k) => k,
                 }
             },
             50_000_000,
         )
-        .unwrap_or_else(|| "0 0 0 0".to_string())
+        .unwrap_or_else(|| "0 0 0 0 0 0 0".to_string())
     };
     let kv: Vec<usize> = k.split_whitespace().map(|x| x.parse::<i64>().unwrap_or(0).max(0) as usize).collect();
-    let kt = (kv[0], kv[1], kv[2], kv[3]);
-    let n_cases = if a.thorough { 6000 } else { 500 };
+    let kt = K { ks: kv[0], ki: kv[3], kv: kv[5] };
+    let n_cases = if a.thorough { 25000 } else { 2000 };
     let mut cases = Vec::new();
     for id in 0..n_cases {
         let mut cr = r.fork();
         let n_ops = cr.range(3, 10);
-        let ops = (0..n_ops).map(|i| gen_read(&mut cr, kt, i == 0, &mut out)).collect();
+        let ops = (0..n_ops).map(|i| gen_op(&mut cr, kt, i == 0, a.thorough, &mut out)).collect();
         cases.push(Case { id, kind: "rd".into(), ops });
     }
     drive(&cases, &mut out);
     out.finish()
 }
 
+struct StderrLog;
+impl log::Log for StderrLog {
+    fn enabled(&self, _: &log::Metadata) -> bool {
+        true
+    }
+    fn log(&self, r: &log::Record) {
+        eprintln!("[{}] {}", r.level(), r.args());
+    }
+    fn flush(&self) {}
+}
+
 pub fn replay(a: &Args) -> String {
+    if std::env::var("VERIF_C14_LOG").is_ok() {
+        static L: StderrLog = StderrLog;
+        let _ = log::set_logger(&L);
+        log::set_max_level(log::LevelFilter::Debug);
+    }
     let text = std::fs::read_to_string(a.input.as_ref().expect("--in")).expect("read input");
     let mut out = Out::default();
     let cases = parse_cases(&text);
